@@ -38,8 +38,8 @@ def ds_key(ds):
 # grid / cells
 # ------------------------------------------------------------------------------------------------
 class Grid:
-    def __init__(self, a, b, c):
-        self.pts = sorted({MN, MN + 1, a, a + 1, b, b + 1, c, MX - 1, MX})
+    def __init__(self, a=1000, b=2000, c=3000, pts=None):
+        self.pts = sorted(set(pts) | {MN, MN + 1, MX - 1, MX}) if pts else sorted({MN, MN + 1, a, a + 1, b, b + 1, c, MX - 1, MX})
         self.spans = [(p, q) for p in self.pts for q in self.pts if p < q]
         self.empty = (MX, MN)
         self.ncell = len(self.pts) - 1
@@ -141,6 +141,7 @@ def check_history(ctx: Ctx, g: Grid, hist: dict, steps: list, tag: str):
     (first failing step index or None, stats)."""
     book = Book(g)
     prev_rows = []
+    summarised = set()   # (collection, type) pairs that ever had a successful certify (the collection summary only grows)
     stats = {"refused_conflict": 0, "split": 0, "trim": 0, "accepted": 0, "ambiguous_seen": 0}
     first_fail = None
 
@@ -176,6 +177,7 @@ def check_history(ctx: Ctx, g: Grid, hist: dict, steps: list, tag: str):
                 apply()
                 if op["op"] == "certify":
                     stats["accepted"] += 1
+                    summarised.update((op["coll"], ds_key(r)[0]) for r in op["refs"])
         if out != "Ok" and rows != prev_rows:
             fail(i, f"{op['op']}-refused-changed-state", f"{op['op']} raised {out} but the calibration rows changed")
         if op["op"] == "decertify" and out == "Ok":
@@ -241,6 +243,12 @@ def check_history(ctx: Ctx, g: Grid, hist: dict, steps: list, tag: str):
         for qi, t, d, pi, res in ob["path"]:
             judge(hist["paths"][qi], t, d, pi, res, "find_dataset-path")
         for c, t, d, pi, res in ob.get("qd", []):
+            if isinstance(res, str) and (c, t) not in summarised and not book.valid.get((c, t, d)):
+                # OUTSIDE C04 (see design.d/C04.md): while a dataset type has never been certified into the collection the new
+                # query system raises sqlalchemy ArgumentError for `<type>.timespan OVERLAPS :ts` (NULL literal column)
+                # instead of returning no rows; nothing is valid there, so no dataset can be returned arbitrarily.
+                ctx.hist("outside-property", "query_datasets error on never-certified collection")
+                continue
             judge([c], t, d, pi, res, "query_datasets")
         prev_rows = rows
         if first_fail is not None:
@@ -341,7 +349,7 @@ def gen_history(rng, g: Grid, length: int, qd: bool):
     probes += [list(g.empty), [MN, MX]] + [list(s) for s in rng.sample(g.spans, 4)]
     n1 = len(probes)
     hist = {"ops": ops, "probes": probes, "keys": keys, "paths": [[0, 1], [1, 0]],
-            "path_probes": sorted(rng.sample(range(n1 - 6), 3)) + list(range(n1 - 5, n1))}
+            "path_probes": sorted(rng.sample(range(n1 - 6), 2)) + list(range(n1 - 4, n1))}
     if qd:
         hist["query_datasets"] = True
         hist["qd_probes"] = sorted(rng.sample(range(n1), 6))
@@ -525,10 +533,7 @@ def run(ctx: Ctx):
     # ---- replay of one file
     if ctx.replay:
         rep = json.loads(Path(ctx.replay).read_text())
-        g = Grid(1000, 2000, 3000)
-        if rep.get("grid"):
-            g.pts = rep["grid"]
-            g.ncell = len(g.pts) - 1
+        g = Grid(pts=rep["grid"]) if rep.get("grid") else Grid()
         hist = {"ops": rep["ops"], "probes": rep.get("probes") or gen_history(ctx.rng, g, 0, False)["probes"],
                 "keys": rep.get("keys") or [[0, 0, 0]], "paths": rep.get("paths") or [[0, 1]]}
         _process(ctx, g, _run_batch(ctx, [hist]), "replay", cases, metas, shrink=False)
@@ -539,14 +544,17 @@ def run(ctx: Ctx):
     corpus = []
     for f in sorted((VERIF / "corpus" / "C04").glob("*.json")):
         rep = json.loads(f.read_text())
-        g = grids[0]
+        ends = {x for op in rep["ops"] if "ts" in op for x in op["ts"]}
+        g = Grid(pts=ends) if not ends <= set(grids[0].pts) else grids[0]
         base = gen_history(ctx.rng.__class__(f.name), g, 0, False)
         corpus.append({"ops": rep["ops"], "probes": rep.get("probes") or base["probes"], "keys": rep.get("keys") or [[0, 0, 0], [0, 0, 1]],
                        "paths": rep.get("paths") or [[0, 1], [1, 0]], "path_probes": list(range(0, len(base["probes"]), 3)),
-                       "query_datasets": True, "qd_probes": list(range(0, len(base["probes"]), 4)), "corpus_file": f.name})
+                       "query_datasets": True, "qd_probes": list(range(0, len(base["probes"]), 4)), "corpus_file": f.name, "_grid": g})
     if corpus:
-        res = _run_batch(ctx, corpus, per_worker=2)
-        _process(ctx, grids[0], res, "corpus", cases, metas)
+        cg = [h.pop("_grid") for h in corpus]
+        res = _run_batch(ctx, corpus, per_worker=1)
+        for g_, one in zip(cg, res):
+            _process(ctx, g_, [one], "corpus", cases, metas)
         ctx.hist("source", "corpus", len(corpus))
         ctx.log(f"corpus: {len(corpus)} histories replayed")
 
@@ -558,7 +566,8 @@ def run(ctx: Ctx):
         a, b, c = sorted(r.sample(range(3, MX - 3), 3))
         if b - a > 1 and c - b > 1:
             grids.append(Grid(a, b, c))
-    n_hist = 45 if ctx.quick else 420
+    import os
+    n_hist = int(os.environ.get("C04_NHIST", "0")) or (45 if ctx.quick else 420)
     length = 12 if ctx.quick else 18
     per_grid = []
     for gi, g in enumerate(grids):
